@@ -307,6 +307,29 @@ def r3(run, ctx):
     rets = [x for x in ctx.live_nodes(g) if x.kind == 'stmt' and isinstance(x.ast, ast.Return)]
     ok2 = all(isinstance(x.ast.value, ast.Name) and x.ast.value.id == 'sockets_fds' for x in rets)
     run.check('R3', ok and ok2, "the worker's table comes from Watcher._get_sockets_fds", g, g.node)
+    # ... for every worker of a watcher that has a socket table: the placeholder can sit in
+    # cmd, in args, in any letter case, or arrive through an environment expansion, so nothing
+    # but "there is a watcher with sockets" may decide whether the table is fetched
+    cg = ctx.cfg(g)
+
+    def has_sockets(e):
+        if isinstance(e, ast.Compare) and len(e.ops) == 1 and \
+                isinstance(e.ops[0], (ast.Is, ast.IsNot, ast.Eq, ast.NotEq)):
+            for p_, q_ in ((e.left, e.comparators[0]), (e.comparators[0], e.left)):
+                if isinstance(q_, ast.Constant) and q_.value is None and \
+                        (norm_text(p_).endswith('watcher') or norm_text(p_).endswith('.sockets')):
+                    return isinstance(e.ops[0], (ast.IsNot, ast.NotEq))
+        return None
+    from sa.idioms import reach_under
+    fetch = ctx.nodes_calling(g, [W + '_get_sockets_fds'])
+    r_ = reach_under(cg, cg.entry, has_sockets, avoid=fetch, labels_excluded=('exc', 'raise', 'reraise'))
+    run.check('R3', bool(fetch) and cg.exit.id not in r_,
+              'every worker of a watcher with a socket table gets the descriptor table', g, g.node,
+              'Process._get_sockets_fds can return without fetching the descriptor table although '
+              'the watcher has sockets (a test on something else decides): $(circus.sockets.NAME) '
+              'in args, in another letter case or behind an environment expansion is then left '
+              'unsubstituted and the worker never learns its descriptor',
+              construct='descriptor table fetched conditionally')
     h = ctx.fn(W + '_get_sockets_fds')
     txt = norm_text(h.node)
     run.check('R3', 'sock.fileno()' in txt and 'self.sockets.items()' in txt,
